@@ -112,7 +112,7 @@ impl Property for C05 {
         "exploration"
     }
     fn rule(&self) -> String {
-        "A case = secure server 0 (plus server 1 with the same private key and protocol but its own challenge key), 3-6 identities/addresses holding tokens that are good, sealed with a foreign key, for a foreign protocol id, listing only a wrong host or a mixed host list, with expiry 1-4 s or 600 s; honest handshake steps with loss in either direction; the server clock stepped by 1-1500 ms around every expiry second; adversarial steps: a request presented from another address (stolen token), single-field corruptions of a request (a bit of the sealed token, the public expiry +-1 / +1000, protocol id, version, nonce), cross-use - a response from a pending address sealed with that address's own key but echoing a challenge issued to another session (other id, same id with other user data, other server) -, a response replayed from another address, bit-flipped responses. Oracle at every ClientConnected{id, addr, user_data} (and for client_addr / user_data / clients_id right after): the trigger was an unmodified response from addr; addr had been challenged for an unmodified request whose token is sealed under this server's key and protocol, lists a public address, was unexpired (server second <= expiry when connecting, < expiry when requesting) and was first used from addr; id and user data are exactly those sealed in that token; the echoed challenge was issued by this server for id. Non-trivial: >= 1 connection established and >= 1 adversarial step after a challenge existed. Distinct = hash of the decoded operation trace.".into()
+        "A case = secure server 0 (plus server 1 with the same private key and protocol but its own challenge key), 3-8 identities/addresses (server client limit 1-4, so tables sized from it fill up) holding tokens that are good, sealed with a foreign key, for a foreign protocol id, listing only a wrong host or a mixed host list, with expiry 1-4 s or 600 s; honest handshake steps with loss in either direction; the server clock stepped by 1-1500 ms around every expiry second; adversarial steps: a request presented from another address (stolen token), single-field corruptions of a request (a bit of the sealed token, the public expiry +-1 / +1000, protocol id, version, nonce), cross-use - a response from a pending address sealed with that address's own key but echoing a challenge issued to another session (other id, same id with other user data, other server) -, a response replayed from another address, bit-flipped responses. Oracle at every ClientConnected{id, addr, user_data} (and for client_addr / user_data / clients_id right after): the trigger was an unmodified response from addr; addr had been challenged for an unmodified request whose token is sealed under this server's key and protocol, lists a public address, was unexpired (server second <= expiry when connecting, < expiry when requesting) and was first used from addr; id and user data are exactly those sealed in that token; the echoed challenge was issued by this server for id. Non-trivial: >= 1 connection established and >= 1 adversarial step after a challenge existed. Distinct = hash of the decoded operation trace.".into()
     }
     fn assumptions(&self) -> Vec<String> {
         vec!["'first used from' = the first address whose request with that token this server answered".into(), "the server is updated before every presentation, so expiry is judged against its current second".into()]
@@ -121,13 +121,15 @@ impl Property for C05 {
         PbtCfg { cases: tier.pick(300_000, 10_000_000), max_len: tier.pick(500, 1500), shrink_ms: 120_000 }
     }
     fn required_labels(&self) -> Vec<&'static str> {
-        vec!["connected", "stolen_request", "corrupt_request", "cross_response", "cross_same_id", "cross_other_server", "replay_response", "expired_at_request", "near_expiry", "bad_token_request"]
+        vec!["connected", "stolen_request", "corrupt_request", "cross_response", "cross_same_id", "cross_other_server", "replay_response", "expired_at_request", "near_expiry", "bad_token_request", "stolen_request_small_server"]
     }
     fn run_choices(&self, ctx: &mut Ctx) -> Outcome {
         let mut nw = NetWorld::new(ctx.src.u16() as u64);
-        nw.servers.push(mk_server(0, 1, PROTO, 4, nw.now, true));
+        // small client limits too: tables sized from the limit (token entries, slots) fill up within a case
+        let max0 = ctx.src.pick(&[4usize, 4, 1, 2, 3]);
+        nw.servers.push(mk_server(0, 1, PROTO, max0, nw.now, true));
         nw.servers.push(mk_server(1, 1, PROTO, 4, nw.now, true));
-        let n = 3 + ctx.src.below(4);
+        let n = 3 + ctx.src.below(6);
         let mut m = Model { toks: vec![], client_tok: vec![], challenged: HashMap::new(), issued: HashMap::new(), connections: 0 };
         let now_s = nw.now.as_secs();
         for i in 0..n {
@@ -278,6 +280,9 @@ impl Property for C05 {
                         continue;
                     }
                     ctx.label("stolen_request");
+                    if max0 < 4 {
+                        ctx.label("stolen_request_small_server");
+                    }
                     adversarial_after_challenge |= !m.challenged.is_empty();
                     let tk = m.client_tok[owner];
                     present(&mut nw, &mut m, ctx, client_addr(from), &d.bytes, Meta::Request { tok: tk, modified: false })?;
